@@ -226,6 +226,7 @@ def run_case(case, ctx):
     try:
         m = layouts.build(KMeansL1L2, dict(n_clusters=k, init=init_l1, n_init=n_init, max_iter=max_iter, tol=tol,
                                            random_state=rs, norm="L1"), via,
+                          as_numpy_scalars=(case["sub"] // 7) % 3 == 0, decoys=
                           dict(n_clusters=k + 2, n_init=5, max_iter=7, tol=0.5, norm="L2", random_state=rs + 1))
         try:
             with warnings.catch_warnings():
@@ -349,7 +350,7 @@ def run_case(case, ctx):
     if not f32 or True:
         kw = dict(n_clusters=k, init=init, n_init=n_init, max_iter=max_iter, tol=tol, random_state=rs)
         try:
-            a = layouts.build(KMeansL1L2, dict(kw, norm="L2"), via, dict(n_clusters=k + 1, norm="L1", n_init=4))
+            a = layouts.build(KMeansL1L2, dict(kw, norm="L2"), via, as_numpy_scalars=(case["sub"] // 7) % 3 == 0, decoys=dict(n_clusters=k + 1, norm="L1", n_init=4))
             b = KMeans(**kw)
             with warnings.catch_warnings():
                 warnings.simplefilter("ignore")
